@@ -168,6 +168,27 @@ def run(chk, tier):
     hsel = fx.hirfn("<dicom_core::ops::AttributeSelector as core::fmt::Display>::fmt")
     chars = [x[2][1] for x in H.walk(hsel["body"]) if H.kind(x) == "lit" and x[2][0] == "char"]
     chk.expect(chars == ["."], "print-parse", "Display for AttributeSelector", "separator", ["."], chars, loc=C.fn_loc(hsel))
+    # the dot goes before every step but the first *by position*: its condition is a flag / index test that never looks at the step's value
+    # (two equal steps, as in ContentSequence[0].ContentSequence[0], must still be separated), and every step is printed
+    dot_ifs = [x for x in H.walk(hsel["body"]) if H.kind(x) == "if" and any(H.kind(y) == "mcall" and y[3] in ("write_char", "write_str") for b in (x[3], x[4]) if b is not None for y in H.walk(b))]
+    loopvars = set()
+    for y in H.walk(hsel["body"]):
+        if H.kind(y) == "match" and len(y) > 5 and y[5] == "ForLoopDesugar":
+            for p, g, b, ln in H.match_arms(y):
+                loopvars |= set(H.pat_bindings(p))
+    for y in H.walk(hsel["body"]):
+        if H.kind(y) == "loop":
+            for z in H.walk(y):
+                if H.kind(z) == "match":
+                    for p, g, b, ln in H.match_arms(z):
+                        if "Some" in H.show_pat(p):
+                            loopvars |= set(H.pat_bindings(p))
+    uses_value = [H.show(x[2], 5) for x in dot_ifs if any(H.kind(y) == "path" and y[2] in loopvars and H.kind(y) == "path" and not re.fullmatch(r"i|idx|index|n", y[2]) for y in H.walk(x[2]))]
+    chk.expect(len(dot_ifs) == 1 and not uses_value, "print-parse", "Display for AttributeSelector", "separator-by-position", "one `if <flag or index test>` around the dot, not a comparison of the step",
+               {"conditions": [H.show(x[2], 5) for x in dot_ifs], "loop variables": sorted(loopvars)}, loc=C.fn_loc(hsel))
+    steps_fmt = [x for c, x in H.calls(hsel["body"]) if c and c.endswith("fmt::Display::fmt")]
+    uncond = [x for x in steps_fmt if not any(x in list(H.walk(i)) for i in dot_ifs)]
+    chk.expect(len(uncond) == 1, "print-parse", "Display for AttributeSelector", "every-step-printed", "Display::fmt(step, f) once per step, outside the separator test", len(uncond), loc=C.fn_loc(hsel))
     pchars = sorted({x[2][1] for x in H.walk(hs["body"]) if H.kind(x) == "lit" and x[2][0] == "char"})
     chk.expect(pchars == [".", "[", "]"], "print-parse", "parse_selector", "delimiters-consumed", [".", "[", "]"], pchars, loc=C.fn_loc(hs))
     hpt = fx.hirfn("dicom_core::dictionary::data_element::DataDictionary::parse_tag")
